@@ -115,7 +115,10 @@ transcript lemma of the drivers is asserted under C04 too (C04-f2: both roles le
 transcript agree with each other, not with the standard), exactly one protocol name in the ServerHello's ALPN
 extension (C14-f2); after the seventh batch: the one-step lemma on the real `incSeq` (symbolic 64-bit pre-state) is
 asserted under C05 as well — a dropped carry repeats sequence numbers, so record 0 is authentic again at position 256
-(C05-g1; C04-g1, a carry that skips a byte, was caught by the same lemma under C04).
+(C05-g1; C04-g1, a carry that skips a byte, was caught by the same lemma under C04).  The same audit on the datagram stack: `C04_record_layout` (symbolic 48-bit `writeSeq`, two
+records) now also asserts under C15 that consecutive datagrams carry distinct, consecutive sequence numbers — a sender
+whose counter repeats has its next payload dropped by the peer's replay window; validated with a hand-made carry slip
+at `dtlcp/conn.go` `writeSeq++` (caught, `C15.record.everyDatagramHasAFreshSequenceNumber`).
 Not caught and not catchable by this
 technique: `C11-C11-c2` (a read-lock fast path in the session cache that is wrong only under a concurrent eviction:
 every sequential history is correct; goroutine schedules are outside the engine, see C13 in section 8).
